@@ -551,6 +551,7 @@ def run_scenario(spec: dict) -> dict:
             shutil.rmtree(tmp, ignore_errors=True)
     if str(result.get("outcome") or "").startswith("error:StubIncomplete"):
         result["error"] = str(result["outcome"])[len("error:"):]      # the harness could not drive this code (see harness/core.py)
+    result["times"] = list(sched.times[:len(trace)])
     result.update({"trace": trace, "deadlock": None if sched.deadlock is None else str(sched.deadlock), "vtime": sched.now,
                    "choices": sched.choices, "states": states, "steps": state["steps"], "trains": state["trains"], "hidden": state.get("hidden")})
     return result
